@@ -1007,7 +1007,19 @@ class Mailbox:
                 # IF they are in IDLE, then we can send the notifications
                 # immediately.
                 #
-                await c.client.push(*notifications)
+                # NOTE: A listener whose connection has gone away is not our
+                #       command's problem (nor the other listeners'): its own
+                #       reader task cleans up after it.
+                #
+                try:
+                    await c.client.push(*notifications)
+                except (OSError, ConnectionError) as exc:
+                    logger.warning(
+                        "Mailbox: '%s', unable to notify %s: %r",
+                        self.name,
+                        c.name,
+                        exc,
+                    )
             else:
                 # Otherwise stick the notifications on a pending list and the
                 # client module will handle sending these to the client when it
@@ -1283,7 +1295,15 @@ class Mailbox:
             if c.pending_notifications and not c.idling:
                 c.pending_notifications.extend(notifications)
             else:
-                await c.client.push(*notifications)
+                try:
+                    await c.client.push(*notifications)
+                except (OSError, ConnectionError) as exc:
+                    logger.warning(
+                        "Mailbox: '%s', unable to notify %s: %r",
+                        self.name,
+                        c.name,
+                        exc,
+                    )
 
         self.num_msgs = num_msgs
         self.num_recent = num_recent
